@@ -690,8 +690,11 @@ theorem handleQuery_inv (s : State) (now : Nat) (p : RxPkt) (i : MyIntf) (h : In
     have hnr := noRen_setRegistry h.noRen p.ifIdx (tiebreakAll_noRen (hr ▸ h.noRen p.ifIdx) now p.msg.authorities p.msg.questions)
     have hinv : Inv (s.setRegistry p.ifIdx (p.msg.questions.foldl (tiebreak now p.msg.authorities) reg)) :=
       Inv.step h hle hnr (fun e he => Or.inl he)
+    have hinv' : Inv ({ (s.setRegistry p.ifIdx (p.msg.questions.foldl (tiebreak now p.msg.authorities) reg)) with
+        timers := s.timers ++ tiebreakTimers now p.msg.authorities reg p.msg.questions } : State) :=
+      Inv.step hinv (StLe.of_eq rfl rfl) hinv.noRen (fun e he => Or.inl he)
     simp only []
-    split <;> exact ⟨hinv, rfl⟩
+    split <;> exact ⟨hinv', rfl⟩
 
 /-- a datagram that is a query (QR bit clear) -/
 def RxPkt.isQuery (p : RxPkt) : Bool := p.msg.flags / 32768 % 2 == 0
